@@ -199,7 +199,7 @@ def run(ctx):
         one_writer(ctx, rs.fork(), symlink=True)
     import os
     os.environ["GOGC"] = "1"      # stress the Go runtime: collections (and finalizers) inside every lock section
-    framework.check_facts(ctx, ctx.facts, ["with_lock", "lock_sites", "writer_calls", "truncate_sites"])
+    framework.check_facts(ctx, ctx.facts, ["with_lock", "lock_sites", "writer_calls", "truncate_sites", "open_sites"])
     reader_shape(ctx)
     r = gen.Rng(ctx.seed * 1000003 + 13)
     for i in range(7 if ctx.quick else 120):
